@@ -404,3 +404,18 @@ ROUND3 = {
 for _k, _v in ROUND3.items():
     if _k in CHECKS:
         CHECKS[_k]["text"] += " " + _v
+
+
+# further TLA+ modules a check runs besides its main engine (listed under MANIFEST.engines)
+EXTRA_ENGINES = {
+    "C01": ["EQLFlat", "EQLTerms"],
+    "C02": ["EQLScalar"],
+    "C07": ["SqlJoin"],
+    "C08": ["RuleNewVar", "SeenSet"],
+    "C09": ["QuantifierPair", "NestedThe", "QuantInd"],
+    "C10": ["EQLCore"],
+    "C13": ["SymbolGraph_Trace"],
+    "C14": ["Ontology", "SymbolGraph_Trace"],
+    "C15": ["Ontology_Trace"],
+    "C20": ["Ontology"],
+}
